@@ -308,6 +308,9 @@ def main(argv=None):
         sig = v["violation"]["sig"]
         if sig in seen_sigs:
             continue
+        if len(seen_sigs) >= 3:
+            print("note: further violation signature %s not minimised / reported (3 already are)" % sig)
+            continue
         seen_sigs.add(sig)
         res0 = {"schedule": v["schedule"], "policy": v["policy"], "digest": v["digest"]}
         case, res, viol, seed = v["case"], res0, v["violation"], v["seed"]
